@@ -131,6 +131,10 @@ def main(tier, seed, only=None):
                 else [signal.SIGKILL, signal.SIGTERM])
     if not only or 'L2' in only:
         l2run.run_into(rep, 'C03', tier, seed, l2_configs(tier))
+    if not only or 'threads' in only:
+        from harness import c01_threads
+        c01_threads.part(rep, tier, only=('hardscan',),
+                         name='thread-level-accept-vs-result')
     steps = ['cancel', 'ack', 'ready']
     cases = []
     for n in (1, 2, 3):
@@ -165,6 +169,9 @@ def replay(rp):
         r = parent_case(tuple(rp['case']))
         print(r)
         return 1 if r['violation'] else 0
+    if rp.get('harness') == 'c01-threads':
+        from harness import c01_threads
+        return c01_threads.replay(rp)
     if rp.get('harness') == 'c03':
         from harness import l2run
         return l2run.replay('C03', rp, l2_configs('thorough') +
